@@ -173,6 +173,10 @@ func ttestRecord(out io.Writer, args []string) error {
 			// grow
 			var k1, k2 int
 			switch {
+			case r == 0 && idx%3 == 0 && stride == 0:
+				// every third history starts with two values in each sample (one degree of freedom) and is tested against a
+				// far-away mu0: |T| of 1e7 and more, where the tail of the t distribution still is 1e-8, not 0
+				k1, k2 = 2, 2
 			case r == 0 && rng.Intn(8) == 0:
 				k1, k2 = rng.Intn(3), rng.Intn(3)
 			default:
@@ -215,6 +219,8 @@ func ttestRecord(out io.Writer, args []string) error {
 			muInt := []int64{0, sp / 2, -sp, off, far, -far}[rng.Intn(6)]
 			if track {
 				muInt = trackD + 1
+			} else if r == 0 && idx%3 == 0 && stride == 0 {
+				muInt = far
 			}
 			for _, kind := range []string{"pooled", "welch", "paired", "one"} {
 				for swap := 0; swap < 2; swap++ {
